@@ -27,8 +27,9 @@ package deviceshare
 //     flushed to the live scheduler before the comparison; a pod name is never re-used in one case;
 //   * restart delivery: the informers LIST one consistent snapshot taken after the crash (each surviving
 //     object once, in its latest version, arbitrary order within a kind, 20 % duplicate adds and 20 %
-//     no-op updates of that version); Devices before reservations before pods (DESIGN: orders the
-//     start-up sequence cannot produce are not generated); API changes after the snapshot (touch,
+//     no-op updates of that version); in 75 % of the cases Devices before reservations before pods, in
+//     25 % ("race") the Device add of some nodes among the pod / reservation adds, which the start-up
+//     pipeline of this tree allows; API changes after the snapshot (touch,
 //     terminate, delete) arrive as watch events after the object's add and are fed to the live instance
 //     too. The inventory does not change during a case (inventory churn is C07's subject).
 //
@@ -374,6 +375,8 @@ type c19Obj struct {
 	patched  interface{}
 	versions []interface{}
 	echoed   int
+
+	beforeDev, afterDev bool // a bound version reached the restarted scheduler before / after its node's Device object
 }
 
 func (o *c19Obj) kind() string {
@@ -775,6 +778,8 @@ type c19Event struct {
 	old, new interface{}
 	isRsv    bool
 	what     string
+	obj      *c19Obj
+	dev      *c19Node // the event is the add of this node's Device object
 }
 
 func c19PodHandler(dc *nodeDeviceCache) cache.ResourceEventHandlerFuncs {
@@ -1044,10 +1049,39 @@ func TestVerifC19DeviceRestart(t *testing.T) {
 				}
 			}
 
-			// ---- restart: Devices, then reservations, then pods
+			// ---- restart. In 75 % of the cases Devices, then reservations, then pods. In 25 % ("race") the Device add of
+			// some nodes falls among the pod / reservation adds and reservations are not ordered before pods: the pod
+			// informer factory and the Koordinator factory (Devices, Reservations) are started together
+			// (cmd/koord-scheduler/app/server.go), the plugin's ForceSyncFromInformer only registers the handlers. The
+			// device cache has to be robust against that order (a pod seen first creates the node entry and books the
+			// used amounts, the Device add then recomputes free = total - used): the comparison is the same verdict.
 			dcR := newNodeDeviceCache()
+			race := r.Pct(25)
+			installed := map[string]bool{}
+			var devQueues [][]c19Event
+			if race {
+				c.Count("race_cases", 1)
+				lateAny := false
+				for i, n := range nodes {
+					if r.Pct(70) || (!lateAny && i == len(nodes)-1) {
+						lateAny = true
+						devQueues = append(devQueues, []c19Event{{dev: n, what: "add Device " + n.name}})
+						c.Count("race_nodes_with_late_device_object", 1)
+					}
+				}
+			}
 			for _, i := range r.Perm(len(nodes)) {
+				late := false
+				for _, q := range devQueues {
+					if q[0].dev == nodes[i] {
+						late = true
+					}
+				}
+				if late {
+					continue
+				}
 				dcR.onDeviceAdd(nodes[i].cr.DeepCopy())
+				installed[nodes[i].name] = true
 				c.Op("restart informer: add Device %s", nodes[i].name)
 			}
 			hR := c19PodHandler(dcR)
@@ -1090,10 +1124,28 @@ func TestVerifC19DeviceRestart(t *testing.T) {
 				default:
 					continue
 				}
+				for i := range q {
+					q[i].obj = o
+				}
 				qIndex[o] = len(queues[o.isRsv])
 				queues[o.isRsv] = append(queues[o.isRsv], q)
 			}
 			apply := func(ev c19Event) {
+				if ev.dev != nil {
+					dcR.onDeviceAdd(ev.dev.cr.DeepCopy())
+					installed[ev.dev.name] = true
+					c.Op("restart informer: %s", ev.what)
+					c.Count("replay_events_device_add_among_pods", 1)
+					return
+				}
+				if ev.obj != nil && !ev.del && (ev.obj.state == c19Bound || ev.obj.state == c19Terminated) {
+					if installed[ev.obj.node.name] {
+						ev.obj.afterDev = true
+					} else {
+						ev.obj.beforeDev = true
+						c.Count("race_events_delivered_before_device_object", 1)
+					}
+				}
 				var h cache.ResourceEventHandler = hR
 				if ev.isRsv {
 					h = rhR
@@ -1140,7 +1192,7 @@ func TestVerifC19DeviceRestart(t *testing.T) {
 						prev := o.latest()
 						o.versions = append(o.versions, c19Touch(r, prev))
 						echo(o, len(o.versions))
-						return o, &c19Event{old: prev, new: o.latest(), isRsv: o.isRsv, what: fmt.Sprintf("update %s %s v%d->v%d (touch after the snapshot)", o.kind(), o.name, len(o.versions)-1, len(o.versions))}
+						return o, &c19Event{obj: o, old: prev, new: o.latest(), isRsv: o.isRsv, what: fmt.Sprintf("update %s %s v%d->v%d (touch after the snapshot)", o.kind(), o.name, len(o.versions)-1, len(o.versions))}
 					}
 				case 1:
 					if o := pick(func(o *c19Obj) bool { return o.state == c19Bound }); o != nil {
@@ -1149,7 +1201,7 @@ func TestVerifC19DeviceRestart(t *testing.T) {
 						o.state = c19Terminated
 						echo(o, len(o.versions))
 						c.Count("terminated_after_snapshot", 1)
-						return o, &c19Event{old: prev, new: o.latest(), isRsv: o.isRsv, what: fmt.Sprintf("update %s %s v%d->v%d (terminated after the snapshot)", o.kind(), o.name, len(o.versions)-1, len(o.versions))}
+						return o, &c19Event{obj: o, old: prev, new: o.latest(), isRsv: o.isRsv, what: fmt.Sprintf("update %s %s v%d->v%d (terminated after the snapshot)", o.kind(), o.name, len(o.versions)-1, len(o.versions))}
 					}
 				case 2:
 					if o := pick(func(o *c19Obj) bool { return o.state == c19Bound || o.state == c19Terminated }); o != nil {
@@ -1161,7 +1213,7 @@ func TestVerifC19DeviceRestart(t *testing.T) {
 						}
 						o.state = c19Deleted
 						c.Count("deleted_after_snapshot", 1)
-						return o, &c19Event{del: true, old: o.latest(), isRsv: o.isRsv, what: fmt.Sprintf("delete %s %s (after the snapshot)", o.kind(), o.name)}
+						return o, &c19Event{obj: o, del: true, old: o.latest(), isRsv: o.isRsv, what: fmt.Sprintf("delete %s %s (after the snapshot)", o.kind(), o.name)}
 					}
 				}
 				return nil, nil
@@ -1172,9 +1224,24 @@ func TestVerifC19DeviceRestart(t *testing.T) {
 				}
 			}
 			ntail := kit.Pick(r, []int{0, 0, 1, 2, 3, 5})
-			if r.Bool() {
+			deliverAll := func() {
+				if race {
+					all := append(append(append([][]c19Event{}, queues[true]...), queues[false]...), devQueues...)
+					deliver(all)
+					return
+				}
 				deliver(queues[true])
 				deliver(queues[false])
+			}
+			countEarly := func() {
+				for _, o := range objs {
+					if o.holds() && o.beforeDev && !o.afterDev {
+						c.Count("race_holders_delivered_only_before_device_object_compared", 1)
+					}
+				}
+			}
+			if r.Bool() {
+				deliverAll()
 				c.Op("---- comparison after the snapshot")
 				compare()
 				for i := 0; i < ntail; i++ {
@@ -1189,11 +1256,11 @@ func TestVerifC19DeviceRestart(t *testing.T) {
 						queues[o.isRsv][qi] = append(queues[o.isRsv][qi], *ev)
 					}
 				}
-				deliver(queues[true])
-				deliver(queues[false])
+				deliverAll()
 			}
 			c.Op("---- final comparison")
 			c.Count("surviving_allocations", survivors)
+			countEarly()
 			compare()
 			two := false
 			for _, k := range perNode {
@@ -1205,35 +1272,6 @@ func TestVerifC19DeviceRestart(t *testing.T) {
 				c.NonTrivial()
 			}
 
-			// ---- information only (never a verdict): pods and reservations delivered BEFORE the node's Device
-			// object, an order DESIGN.md excludes. Counts device-level "used" entries that differ afterwards.
-			{
-				dcX := newNodeDeviceCache()
-				hX := c19PodHandler(dcX)
-				rhX := reservationutil.NewReservationToPodEventHandler(hX, reservationutil.IsObjValidActiveReservation)
-				for _, o := range objs {
-					if o.holds() {
-						if o.isRsv {
-							rhX.OnAdd(o.latest(), true)
-						} else {
-							hX.OnAdd(o.latest(), true)
-						}
-					}
-				}
-				diff := 0
-				for _, n := range nodes {
-					dcX.onDeviceAdd(n.cr.DeepCopy())
-					sX, sR := c19Observe(dcX, n.name), c19Observe(dcR, n.name)
-					if k, _, _, _ := c19Diff(sR.used, sX.used, func(k c19Key) string { return k.String() }); k != "" {
-						diff++
-					}
-					if k, _, _, _ := c19Diff(sR.free, sX.free, func(k c19Key) string { return k.String() }); k != "" {
-						diff++
-					}
-				}
-				c.Count("info_pods_before_devices_probe_nodes", len(nodes))
-				c.Count("info_pods_before_devices_probe_nodes_differing", diff)
-			}
 			if c.K < 2 {
 				ops := c.Ops()
 				if len(ops) > 14 {
